@@ -91,7 +91,67 @@ def c02(res, wd):
     res.assumptions += ["SyncTest request lists are judged by C13's check"]
 
 
+QUEUE_INV = ["NoQueueError", "Truthful", "FirstIncorrectExact", "NothingNeededDiscarded"]
+
+
+def _queue_component(res, wd, pid):
+    """InputQueue.tla alone: exhaustive with a tiny ring (wrap-around), and - with the real ring size - one
+    behaviour per distinct model state replayed on the real queue (verif::InputQueueProbe)."""
+    import re
+    core.build()
+    small = [("ring5_w2", {"QL": 5, "W": 2, "MaxFrame": 6, "Values": "{0, 1}", "PredDefault": "FALSE"}),
+             ("ring4_w2_preddef", {"QL": 4, "W": 2, "MaxFrame": 5, "Values": "{0, 1}", "PredDefault": "TRUE"})]
+    if res.tier == "thorough":
+        small += [("ring5_w2_f7", {"QL": 5, "W": 2, "MaxFrame": 7, "Values": "{0, 1}", "PredDefault": "FALSE"}),
+                  ("ring6_w3", {"QL": 6, "W": 3, "MaxFrame": 8, "Values": "{0, 1}", "PredDefault": "FALSE"}),
+                  ("ring5_w2_v3", {"QL": 5, "W": 2, "MaxFrame": 6, "Values": "{0, 1, 2}", "PredDefault": "FALSE"})]
+    for name, c in small:
+        cfgp = os.path.join(wd, "mc_q_%s.cfg" % name)
+        engines.write_cfg(cfgp, "Spec", {k: str(v) for k, v in c.items()}, invariants=QUEUE_INV, view="View")
+        rc, out = core.tlc(os.path.join(core.SPEC, "MC_Queue.tla"), cfgp, os.path.join(wd, "md_q_" + name), workers=6,
+                           timeout=1200, xmx="8g")
+        gen, dist = core.parse_tlc_stats(out)
+        if "is violated" in out or "Model checking completed" not in out:
+            raise core.ToolError("MC_Queue/%s: the queue model violates its invariants or did not complete:\n%s"
+                                 % (name, out[-1500:]))
+        res.add_model("MC_Queue/" + name, gen, dist, {"constants": c, "exhaustive": True})
+    for pred, flag in (("repeat", "FALSE"), ("default", "TRUE")):
+        c = {"QL": 128, "W": 2, "MaxFrame": sizes(res.tier, 4, 6), "Values": "{0, 1}", "PredDefault": flag}
+        cfgp = os.path.join(wd, "mc_q128_%s.cfg" % pred)
+        engines.write_cfg(cfgp, "Spec", {k: str(v) for k, v in c.items()}, invariants=QUEUE_INV + ["Emit"], view="View")
+        rc, out = core.tlc(os.path.join(core.SPEC, "MC_Queue.tla"), cfgp, os.path.join(wd, "md_q128_" + pred),
+                           workers=1, timeout=2400, xmx="8g")
+        gen, dist = core.parse_tlc_stats(out)
+        if "is violated" in out or "Model checking completed" not in out:
+            raise core.ToolError("MC_Queue/128/%s failed:\n%s" % (pred, out[-1500:]))
+        beh = os.path.join(wd, "queue_behaviours_%s.ndjson" % pred)
+        with open(beh, "w") as f:
+            for m in re.finditer(r'<<"QUEUE", "(.*)">>', out):
+                f.write(m.group(1).encode().decode("unicode_escape") + "\n")
+        res.add_model("MC_Queue/ring128_" + pred, gen, dist, {"constants": c, "exhaustive": True})
+        outp = os.path.join(wd, "queue_mismatch_%s.ndjson" % pred)
+        rc, o = core.sh([os.path.join(core.BIN, "queue"), beh, outp, pred], timeout=1200)
+        if rc != 0:
+            raise core.ToolError("queue replay failed: %s" % o[-800:])
+        summ = json.loads([l for l in o.splitlines() if l.startswith("{")][-1])
+        res.evaluations += summ["behaviours"]
+        res.nontrivial += summ["behaviours"]
+        res.extra["queue_replay_" + pred] = summ
+        if summ["mismatches"]:
+            rp = os.path.join(core.REPLAYS, pid)
+            os.makedirs(rp, exist_ok=True)
+            rpath = os.path.join(rp, "queue_%s_s%d.ndjson" % (pred, res.seed))
+            import shutil
+            shutil.copy(outp, rpath)
+            with open(outp) as f:
+                first = json.loads(f.readline())
+            res.violations.append({"prop": pid, "code": "input-queue-differs-from-specification", "detail": first["why"],
+                                   "family": "queue-replay", "cls": "queue", "replay": rpath})
+        os.remove(beh)
+
+
 def c03(res, wd):
+    _queue_component(res, wd, "C03")
     model_session(res, wd, "C03", sizes(res.tier, SESSION_MODELS_QUICK, SESSION_MODELS_THOROUGH), {"C03"})
     ns, depth = sizes(res.tier, (10, 90), (60, 140))
     engines.s2i_runs(res, "C03", wd, "g2p", {"MaxFrame": 8, "PredDefault": "TRUE", "MaxSteps": depth - 10},
@@ -101,7 +161,10 @@ def c03(res, wd):
     ps += plans.batch(res.seed * 1000 + 7, n, frames, cfg={"predictor": "repeat"}, change=0.3, alphabet=16)
     engines.obs_runs(res, "C03", ps, {"C03"}, wd, "c03",
                      nontrivial=lambda st, pl: st["predicted"] >= 10 and st["corrected"] >= 1)
-    res.rule = ("status truthfulness and finality of confirmed inputs (Monitor.tla AdvH/FinalF) on every "
+    res.rule = ("MC_Queue.tla: the input queue alone, exhaustive with a 4-6 slot ring (wrap-around) under a protocol-"
+                "respecting client, invariants Truthful / FirstIncorrectExact / NothingNeededDiscarded; with the real ring "
+                "size one behaviour per distinct model state is replayed on the real queue (every return value compared). "
+                "Session level: status truthfulness and finality of confirmed inputs (Monitor.tla AdvH/FinalF) on every "
                 "AdvanceFrame request; both predictors; non-trivial = >=10 predicted inputs and >=1 corrected frame")
 
 
@@ -413,7 +476,7 @@ def _drop_plan(rng, frames):
     w = rng.choice([0, 1, 2, 4, 8, 8])
     timeout = rng.choice([600, 1000, 2000])
     notify = rng.choice([200, 300, 500])
-    cfg = {"players": la + lb, "window": w, "sparse": rng.random() < 0.4,
+    cfg = {"players": la + lb, "window": w, "sparse": rng.random() < 0.5,
            "predictor": rng.choice(["repeat", "default"]), "desync": 0, "fps": 60,
            "timeout": timeout, "notify": min(notify, timeout - 100), "max_behind": 10, "catchup": 2,
            "max_delay": 8, "peers": peers, "inputs_by_frame": rng.choice([0, 4])}
@@ -425,10 +488,14 @@ def _drop_plan(rng, frames):
          "loss": rng.choice([0.0, 0.0, 0.1, 0.3]), "dup": 0.0, "alphabet": 4,
          "change": rng.choice([0.3, 1.0]), "drain": True,
          "max_ms": 60000, "settle_ms": timeout + 1500}
-    if rng.random() < 0.7:
+    if rng.random() < 0.5:
         p["kills"] = [{"p": 1, "at_frame": at}]
     else:
+        # explicit disconnect_player while inputs of the dropped player (delayed ones in particular) are
+        # ahead of the survivor's frame: the cut-off frame itself is simulated after the flag is set
         p["discs"] = [{"p": 0, "h": peers[1]["locals"][-1], "at_frame": at}]
+        if rng.random() < 0.6:
+            peers[1]["delay"] = rng.choice([1, 2, 4])
     return p
 
 
